@@ -21,6 +21,9 @@ CONSTANTS
   GenCheck = TRUE
   ModernUnsub = FALSE
   ForeignUnsub = TRUE
+  Listeners = {}
+  MaxListens = 0
+  FailUndo = TRUE
   Stepwise = FALSE
   Gates = FALSE
   GateNames = {"inv", "usr", "put"}
